@@ -112,15 +112,23 @@ Theorem no_chunk_deletion_unless_requested : forall p, chunk_guard_contract p = 
 Proof. exact no_rm_unless_requested_lemma. Qed.
 Print Assumptions no_chunk_deletion_unless_requested.
 
+Theorem no_chunk_deletion_unless_requested_any : forall p, chunk_guard_contract p = true ->
+  forall E t, rm_req (fl E) t = false -> Forall (fun a => is_rm t a = false) (trace E p).
+Proof. exact no_rm_unless_requested_any_lemma. Qed.
+Print Assumptions no_chunk_deletion_unless_requested_any.
+
+(* round 2: t ranges over the np chunk directories AND the litdata ones; "requested" (`rm_req`)
+   covers np chunks made by the memory fallback of an in-memory run; valid cells include litdata,
+   re-used chunks, every wandb mode *)
 Theorem chunk_deletion_on_all_paths : forall t p, rm_all_paths no_excuse t p = true ->
-  forall E, valid_cell (fl E) = true -> rm_requested (fl E) = true ->
+  forall E, valid_cell (fl E) = true -> rm_req (fl E) t = true ->
   result E p <> ExnInvalid ->
   exists a, In a (trace E p) /\ is_rm t a = true.
 Proof. exact chunk_deletion_on_all_paths_lemma. Qed.
 Print Assumptions chunk_deletion_on_all_paths.
 
 Theorem chunk_deletion_on_all_paths_unless_F15 : forall t p, rm_all_paths sel_F15 t p = true ->
-  forall E, valid_cell (fl E) = true -> rm_requested (fl E) = true -> sel_F15 (fl E) = false ->
+  forall E, valid_cell (fl E) = true -> rm_req (fl E) t = true -> sel_F15 (fl E) = false ->
   result E p <> ExnInvalid ->
   exists a, In a (trace E p) /\ is_rm t a = true.
 Proof. exact chunk_deletion_on_all_paths_unless_F15_lemma. Qed.
@@ -147,11 +155,41 @@ Proof. exact failing_cell_exists. Qed.
 Print Assumptions failing_cell_is_a_failure.
 
 Theorem chunks_left_cell_is_a_failure : forall p, is_some (first_rm_missing_cell p) = true ->
-  exists E, valid_cell (fl E) = true /\ rm_requested (fl E) = true /\ result E p <> ExnInvalid /\
-    ~ ((exists a, In a (trace E p) /\ is_rm RmTrain a = true) /\
-       (exists a, In a (trace E p) /\ is_rm RmVal a = true)).
+  exists E, valid_cell (fl E) = true /\ result E p <> ExnInvalid /\
+    exists t, rm_req (fl E) t = true /\ ~ (exists a, In a (trace E p) /\ is_rm t a = true).
 Proof. exact rm_missing_cell_exists. Qed.
 Print Assumptions chunks_left_cell_is_a_failure.
+
+(* ---- round 2 ---- *)
+
+(* the grid of valid cells was widened, not changed: every round-1 cell (two torch_dataset
+   frameworks, chunks created by the run) is a valid cell *)
+Theorem valid_cells_widened : forall F, valid_cell_r1 F = true -> valid_cell F = true.
+Proof. exact valid_cell_widened. Qed.
+Print Assumptions valid_cells_widened.
+
+(* (c2') with tracking on, a completed rank-0 run records the id of its tracking run in the live
+   configuration, and the LAST training_config.yaml is written after that and after every other
+   mutation: the final file is the configuration actually used, tracking-run id included *)
+Theorem final_config_records_run_id : forall p,
+  final_config_contract p = true -> run_id_contract p = true ->
+  forall E, fl E RankZero = true -> fl E UseWandb = true -> (forall i, fault E i = NoFault) ->
+  result E p = Ok ->
+  exists p1 a p2 b p3, trace E p = p1 ++ a :: p2 ++ b :: p3 /\
+    is_set_path run_id_path a = true /\ is_write_to FTraining b = true /\
+    Forall (fun c => is_set c = false) p3.
+Proof. exact final_config_records_run_id_lemma. Qed.
+Print Assumptions final_config_records_run_id.
+
+(* (c2'') the final save sits in `finally`: whatever exception strikes inside a try body (ANY
+   fault schedule), a rank-0 run that is not an explicit rejection ends with
+   training_config.yaml written after the last mutation *)
+Theorem final_config_under_faults : forall p, final_config_contract_faults p = true ->
+  forall E, fl E RankZero = true -> result E p <> ExnInvalid ->
+  exists p1 a p2, trace E p = p1 ++ a :: p2 /\ is_write_to FTraining a = true /\
+                  Forall (fun b => is_set b = false) p2.
+Proof. exact final_config_under_faults_lemma. Qed.
+Print Assumptions final_config_under_faults.
 
 (* =============== Part B: the frozen snapshot of the pinned tree =============== *)
 
@@ -162,13 +200,14 @@ Theorem key_persisted_refuted : forall b15,
 Proof. exact ref_key_persisted_refuted. Qed.
 Print Assumptions key_persisted_refuted.
 
-(* the complete leak table of the pinned tree (finite domain: the 32 cells of the grid
-   {tracking, checkpointing, np_chunks, delete flag, structured}; bound in the statement):
+(* the complete leak table of the pinned tree (finite domain: the 384 cells of the grid
+   {tracking, checkpointing, framework (3), delete flag, structured, wandb offline, re-used
+   chunks, memory fallback}; bound in the statement):
    initial_config.yaml and the constructor's training_config.yaml always, the chunk
-   config.yaml under np_chunks, and — tracking off — both training_config.yaml writes of
-   train() and the checkpoints *)
+   config.yaml when a chunk framework creates chunks, and — tracking off — both
+   training_config.yaml writes of train() and the checkpoints *)
 Theorem key_leak_table_finite :
-  length all_cells = 32 /\
+  length all_cells = 384 /\
   map (leaks_of_cell (reference false true)) all_cells = map expected_leaks all_cells.
 Proof. exact ref_leak_table. Qed.
 Print Assumptions key_leak_table_finite.
@@ -209,10 +248,9 @@ Print Assumptions run_completes_after_fix.
 (* F15, second consequence: the same exception strikes inside `finally` before the chunk
    directories are removed *)
 Theorem chunks_left_behind_refuted : forall b14,
-  exists E, valid_cell (fl E) = true /\ rm_requested (fl E) = true /\
-    result E (reference b14 false) <> ExnInvalid /\
-    ~ ((exists a, In a (trace E (reference b14 false)) /\ is_rm RmTrain a = true) /\
-       (exists a, In a (trace E (reference b14 false)) /\ is_rm RmVal a = true)).
+  exists E, valid_cell (fl E) = true /\ result E (reference b14 false) <> ExnInvalid /\
+    exists t, rm_req (fl E) t = true /\
+              ~ (exists a, In a (trace E (reference b14 false)) /\ is_rm t a = true).
 Proof. exact ref_chunks_left_behind. Qed.
 Print Assumptions chunks_left_behind_refuted.
 
@@ -232,7 +270,27 @@ Theorem artifact_contract_reference : forall b14 b15,
 Proof. exact reference_contracts. Qed.
 Print Assumptions artifact_contract_reference.
 
+(* round 2: the tracking-run id and the final save under faults, for the repaired snapshot *)
+Theorem round2_contracts_reference : forall b14,
+  run_id_contract (reference b14 true) = true /\
+  final_config_contract_faults (reference b14 true) = true.
+Proof. exact reference_round2_contracts. Qed.
+Print Assumptions round2_contracts_reference.
+
 (* ============================ non-vacuity ================================ *)
+
+(* the widened part of the grid is inhabited: a litdata cell with re-used chunks and the delete
+   flag is valid, requests the deletion of the litdata directories and not of the np ones; an
+   in-memory cell whose cache does not fit requests the np ones *)
+Example ex_widened_cells :
+  let lit := cell_flags {| c_wandb := true; c_ckpt := true; c_fw := KLit; c_delete := true;
+                           c_structured := false; c_offline := false; c_existing := true; c_memfb := false |} in
+  let fb := cell_flags {| c_wandb := false; c_ckpt := false; c_fw := KMem; c_delete := true;
+                          c_structured := true; c_offline := true; c_existing := false; c_memfb := true |} in
+  (valid_cell lit, valid_cell_r1 lit, rm_req lit RmLitTrain, rm_req lit RmTrain,
+   valid_cell fb, rm_req fb RmTrain, rm_req fb RmLitVal)
+  = (true, false, true, false, true, true, false).
+Proof. vm_compute. reflexivity. Qed.
 
 (* the checkers are not trivially false / true: values on the two extreme snapshots *)
 Example ex_checkers_on_pinned_tree :
